@@ -5,6 +5,6 @@ c=$1; id=$2; shift 2
 cd /repo || exit 2
 git status --short | grep -q . && { echo "repo not clean"; exit 2; }
 git show $c -- lib | git apply -R || { echo "cannot reverse-apply $c"; exit 2; }
-cd /verif && ./check $id "$@" > /tmp/revert_$id.log 2>&1; rc=$?
+cd /verif && VERIF_EVIDENCE_DIR=/tmp/gosmt-evidence ./check $id "$@" > /tmp/revert_$id.log 2>&1; rc=$?
 git -C /repo checkout -- .
 echo "revert $c: $id exit=$rc $(grep -E 'counterexample' /tmp/revert_$id.log | head -1 | cut -c1-220)"
